@@ -131,6 +131,9 @@ pub struct MetaItem {
     /// unknown children placed before / after the data atom inside the item
     pub pre: Vec<(Cc, Vec<u8>)>,
     pub post: Vec<(Cc, Vec<u8>)>,
+    /// second word of the data atom: the locale indicator (country / language), 0 in most files
+    #[serde(default)]
+    pub locale: u32,
 }
 
 #[derive(Clone, Debug, Serialize, Deserialize, PartialEq, Eq)]
@@ -446,7 +449,7 @@ pub fn meta_node_with(me: &Meta, lp: &mut LargePick) -> Node {
             for (t, p) in &it.pre {
                 parts.push(lp.mark(Node::leaf_cc(*t, p.clone())));
             }
-            parts.push(lp.mark(Node::leaf("data", enc_data(it.type_code, 0, &it.payload))));
+            parts.push(lp.mark(Node::leaf("data", enc_data(it.type_code, it.locale, &it.payload))));
             for (t, p) in &it.post {
                 parts.push(lp.mark(Node::leaf_cc(*t, p.clone())));
             }
